@@ -37,6 +37,7 @@ package csv
 //@   ensures [absent] !old(has(f.headerMap, s)) ==> result.i == -1 && len(f.missingRequiredColumns) == old(len(f.missingRequiredColumns)) + 1
 //@   ensures [valid-or-recorded] (0 <= result.i && result.i < len(f.headerContent)) || len(f.missingRequiredColumns) > 0
 //@   ensures [monotone] len(f.missingRequiredColumns) >= old(len(f.missingRequiredColumns))
+//@   ensures [present-changes-nothing] old(has(f.headerMap, s)) ==> sameheap("string") && sameheap("File")
 //@   assigns f.missingRequiredColumns, elems(f.missingRequiredColumns)
 
 //@ func (*File).OptionalColumn
